@@ -69,7 +69,8 @@ fn gen_tables(r: &mut Rng, lclass: &str, rclass: &str, mixed: bool) -> (Catalog,
     let anybig = big(lclass) || big(rclass);
     let pool: &[ColTy] = if anybig { &[ColTy::I64, ColTy::I64, ColTy::I32, ColTy::Date] } else { &[ColTy::I64, ColTy::I64, ColTy::I32, ColTy::Str, ColTy::Date] };
     let mut ktys = [*r.pick(pool), *r.pick(&[ColTy::I64, ColTy::Str, ColTy::I32, ColTy::Date]), *r.pick(&[ColTy::Date, ColTy::I64, ColTy::Str])];
-    if mixed { ktys[0] = ColTy::I32; }
+    // `mixed`: one side's first key is INTEGER, the other side's BIGINT (which side: a coin)
+    let narrow_side = if mixed { ktys[0] = ColTy::I64; Some(r.below(2) as usize) } else { None };
     let (nl, nr) = (rows_of(r, lclass), rows_of(r, rclass));
     // key domains: small (duplicates) for small tables; for big ones wide enough to keep the output linear in the input
     let dom0: u64 = if anybig { (nl.max(nr) as u64 / *r.pick(&[2u64, 3, 8])).max(4) } else { *r.pick(&[2u64, 3, 4, 6, 8]) };
@@ -81,7 +82,7 @@ fn gen_tables(r: &mut Rng, lclass: &str, rclass: &str, mixed: bool) -> (Catalog,
         let knull: Vec<u8> = (0..3).map(|_| *r.pick(&[0u8, 0, 0, 10, 10, 50, 100])).collect();
         let mut cols = vec![mk(format!("id{}", t), ColTy::I64, 0, true)];
         for (i, k) in KEYS.iter().enumerate() {
-            let cty = if mixed && i == 0 && t == 1 { ColTy::I64 } else { ktys[i] };
+            let cty = if i == 0 && narrow_side == Some(t) { ColTy::I32 } else { ktys[i] };
             cols.push(mk(format!("{}{}", k, t), cty, knull[i], false));
         }
         cols.push(mk(format!("v{}", t), ColTy::I64, 10, false));
@@ -94,11 +95,33 @@ fn gen_tables(r: &mut Rng, lclass: &str, rclass: &str, mixed: bool) -> (Catalog,
             rows.push(row);
         }
         let cuts = cut(r, n, if n >= 900 { 6 } else { 4 });
-        desc += &format!("n{}:{} knull{}:{} ", t, if n == 0 { "0".to_string() } else if n <= 8 { "tiny".into() } else if n < 60 { "small".into() } else if n < 900 { "mid".into() } else if n <= 1000 { "le1000".into() } else if n <= 10_000 { "gt1000".into() } else { "gt10000".into() }, t, knull[0]);
+        desc += &format!("knull{}:{} ", t, knull[0]);
         tables.push(TableSpec { name: format!("t{}", t), cols, rows, cuts });
     }
     desc += &format!("kty:{}", ktys[0].name());
     (Catalog { tables }, desc)
+}
+
+/// number of (left, right) pairs with equal non-NULL keys (the residual ignored): an upper bound of the matched pairs
+fn key_pairs(cat: &Catalog, nkeys: usize) -> usize {
+    if nkeys == 0 { return cat.tables[0].rows.len() * cat.tables[1].rows.len(); }
+    let mut m: std::collections::HashMap<Vec<Val>, usize> = std::collections::HashMap::new();
+    let widen = |v: &Val| v.clone();
+    for r in &cat.tables[1].rows { let k: Vec<Val> = (0..nkeys).map(|i| widen(&r[1 + i])).collect(); if k.iter().any(|v| v.is_null()) { continue; } *m.entry(k).or_insert(0) += 1; }
+    let mut n = 0usize;
+    for r in &cat.tables[0].rows { let k: Vec<Val> = (0..nkeys).map(|i| widen(&r[1 + i])).collect(); if let Some(c) = m.get(&k) { n += c; } }
+    n
+}
+
+/// keep the answer small enough for the quadratic bag comparison of the reference side: halve the larger table until
+/// at most `cap` key-equal pairs remain
+fn cap_output(r: &mut Rng, cat: &mut Catalog, nkeys: usize, cap: usize) {
+    while key_pairs(cat, nkeys) > cap {
+        let t = if cat.tables[0].rows.len() >= cat.tables[1].rows.len() { 0 } else { 1 };
+        let n = cat.tables[t].rows.len() / 2;
+        cat.tables[t].rows.truncate(n);
+        cat.tables[t].cuts = cut(r, n, 4);
+    }
 }
 
 fn colref(side: usize, idx: usize, name: &str, lw: usize, outer: bool) -> Expr {
@@ -174,6 +197,11 @@ fn size_classes(r: &mut Rng, n: usize, o: &Opts, op: bool) -> (String, String) {
 
 fn cfg_class(name: &str) -> String { name.split('+').next().unwrap_or("").trim_end_matches(char::is_numeric).trim_end_matches('x').trim_end_matches(char::is_numeric).to_string() }
 
+fn size_tags(cat: &Catalog) -> Vec<String> {
+    cat.tables.iter().enumerate().map(|(t, tb)| { let n = tb.rows.len();
+        format!("n{}:{}", t, if n == 0 { "0" } else if n <= 8 { "tiny" } else if n < 60 { "small" } else if n < 900 { "mid" } else if n <= 1000 { "le1000" } else if n <= 10_000 { "gt1000" } else { "gt10000" }) }).collect()
+}
+
 fn common_tags(sh: &Shape, desc: &str) -> Vec<String> {
     let mut tags = vec![format!("jt:{}", sh.jt.json()), format!("form:{}", if sh.form == Form::Exists { "exists" } else { "join" }), format!("nkeys:{}", sh.nkeys), format!("resid:{}", sh.resid.name())];
     if sh.mixed { tags.push("f:mixed_width".into()); }
@@ -185,7 +213,8 @@ fn common_tags(sh: &Shape, desc: &str) -> Vec<String> {
 fn gen_sql_case(r: &mut Rng, n: usize, o: &Opts) -> (Value, Value) {
     let sh = gen_shape(r, n, o);
     let (lc, rc) = size_classes(r, n, o, false);
-    let (cat, desc) = gen_tables(r, &lc, &rc, sh.mixed);
+    let (mut cat, desc) = gen_tables(r, &lc, &rc, sh.mixed);
+    cap_output(r, &mut cat, sh.nkeys, o.get_usize("cap", 3000));
     let cfg_names: Vec<&str> = o.get("cfgs").unwrap_or("mem1,memb,memb,pq1x64,pq2x7,pq2x500").split(',').collect();
     let mut cfg_name = cfg_names[(n / 7) % cfg_names.len()].to_string();
     // multi-key joins over Parquet: the optimizer's PackedJoinKeys rewrite is C03's finding, not a join-operator defect
@@ -195,6 +224,7 @@ fn gen_sql_case(r: &mut Rng, n: usize, o: &Opts) -> (Value, Value) {
     let sql = q.sql();
     let ops = plan_ops(&cat, &sql, &cfg);
     let mut tags = common_tags(&sh, &desc);
+    tags.extend(size_tags(&cat));
     tags.push("kind:sql".into());
     tags.push(format!("cfg:{}", cfg_class(&cfg.name)));
     for opn in ["HashJoin", "SpillableHashJoin", "NestedLoop", "CrossJoin", "StreamingParquetScan", "ParquetScan", "Filter", "DelimJoin"] { if ops.iter().any(|x| x == opn) { tags.push(format!("op:{}", opn)); } }
@@ -312,12 +342,14 @@ fn gen_op_case(r: &mut Rng, n: usize, o: &Opts) -> (Value, Value) {
     sh.form = Form::Join; sh.mixed = false;
     if sh.jt == JoinType::Cross { sh.resid = Resid::None; }
     let (lc, rc) = size_classes(r, n, o, true);
-    let (cat, desc) = gen_tables(r, &lc, &rc, false);
+    let (mut cat, desc) = gen_tables(r, &lc, &rc, false);
+    cap_output(r, &mut cat, sh.nkeys, o.get_usize("cap", 3000));
     let q = build_query(&cat, &sh, true);
     let build_right = match sh.jt { JoinType::Right => true, _ => r.chance(1, 2) };
     let lparts = gen_parts(r, cat.tables[0].rows.len());
     let rparts = gen_parts(r, cat.tables[1].rows.len());
     let mut tags = common_tags(&sh, &desc);
+    tags.extend(size_tags(&cat));
     tags.push("kind:op".into());
     tags.push("cfg:op".into());
     tags.push(format!("build:{}", if build_right { "right" } else { "left" }));
@@ -335,7 +367,18 @@ fn gen_op_case(r: &mut Rng, n: usize, o: &Opts) -> (Value, Value) {
 }
 
 fn run_any(case: &Value) -> Value {
-    if case["c22"]["kind"].as_str() == Some("op") { run_op(case) } else { run_case(case) }
+    if case["c22"]["kind"].as_str() == Some("op") { return run_op(case); }
+    let mut imp = run_case(case);
+    // neutraliser of the mixed-width finding (DESIGN §3.4): the same statement over the same rows with the INTEGER key
+    // column declared BIGINT must be answered correctly
+    if case["c22"]["mixed"].as_bool() == Some(true) {
+        let mut cat = Catalog::from_case(case);
+        for t in cat.tables.iter_mut() { if t.cols[1].cty == ColTy::I32 { t.cols[1].cty = ColTy::I64; } }
+        let cfg = case["cfg"].as_str().and_then(ExecCfg::parse).unwrap_or_else(ExecCfg::mem_batches);
+        let n = crate::fams::fam_sql::sqlgen::exec::run(&cat, case["sql"].as_str().unwrap_or(""), &cfg);
+        if let Some(o) = imp.as_object_mut() { o.insert("neutral".into(), n); }
+    }
+    imp
 }
 
 // ------------------------------------------------------------------------------------------------------- witnesses
@@ -367,8 +410,8 @@ fn witness_cases() -> Vec<(Value, Value)> {
     let r2: Vec<Vec<Val>> = (0..1001).map(|k| row(k, k % 3, 2)).collect();
     push("C22-F2", Catalog { tables: vec![table(0, ColTy::I64, l2), table(1, ColTy::I64, r2)] },
          Shape { jt: JoinType::Semi, form: Form::Join, nkeys: 1, resid: Resid::Lt, mixed: false }, "mem1");
-    // F3  INTEGER key against BIGINT key
-    push("C22-F3", Catalog { tables: vec![table(0, ColTy::I32, vec![row(0, 1, 1), row(1, 2, 1)]), table(1, ColTy::I64, vec![row(0, 1, 2), row(1, 3, 2)])] },
+    // F3  BIGINT build key (dense: direct-address table) probed with an INTEGER key
+    push("C22-F3", Catalog { tables: vec![table(0, ColTy::I64, vec![row(0, 1, 1), row(1, 2, 1)]), table(1, ColTy::I32, vec![row(0, 1, 2), row(1, 3, 2)])] },
          Shape { jt: JoinType::Left, form: Form::Join, nkeys: 1, resid: Resid::None, mixed: true }, "mem1");
     out
 }
